@@ -1,6 +1,7 @@
 import CedarVerif.Cedar.Eval
 import CedarVerif.Lemmas.Like
 import CedarVerif.Lemmas.Beq
+import CedarVerif.Lemmas.SetRepr
 /-
 C02 — Expression evaluation follows the Cedar language semantics.
 Property theorems about `Cedar.evaluate` (the mirror of the value paths of
@@ -266,6 +267,21 @@ theorem set_order_dup_insensitive (xs ys : List Value)
   rw [Value.beq]
   simp only [Bool.and_eq_true]
   exact ⟨sub xs ys h, sub ys xs (fun v => (h v).symm)⟩
+
+
+/-! ### `Set`'s fast (all-literal hash set) and authoritative paths agree -/
+
+/-- C02: under the `FastRepr` invariant — established by every constructor (`make_fastRepr`) — each
+    operation of the mirror of `ast::value::Set` that picks a fast path returns what the authoritative
+    (slow) path returns, i.e. what `evaluate` uses: membership, subset, disjointness and equality modulo `beq`. -/
+theorem set_fast_slow_agree (s o : SetRepr) (hs : s.FastRepr) (ho : o.FastRepr) (v : Value) :
+    s.contains v = Value.elem v s.authoritative ∧
+    s.isSubset o = Value.subset s.authoritative o.authoritative ∧
+    s.isDisjoint o = !(s.authoritative.any (fun v => Value.elem v o.authoritative)) ∧
+    s.eq o = Value.beq (.set s.authoritative) (.set o.authoritative) :=
+  ⟨contains_fast_slow s hs v, isSubset_fast_slow s o hs ho, isDisjoint_fast_slow s o hs ho, eq_fast_slow s o hs ho⟩
+
+theorem set_constructor_establishes_fastRepr (vs : List Value) : (SetRepr.make vs).FastRepr := make_fastRepr vs
 
 /-! ### hierarchy membership, `has`, attribute access -/
 
